@@ -5,7 +5,8 @@ set -u
 cd /verif
 if [ -n "$(git -C /repo status --porcelain)" ]; then echo "REFUSING: /repo working tree is dirty"; exit 2; fi
 FAIL=0
-only=${1:-}
+only=" ${*:-} "   # optional list of property ids; empty = all
+[ "$only" = "  " ] && only=""
 echo "== unchanged tree"
 for cfg in checks/*.json; do id=$(basename $cfg .json)
   out=$(bin/check $id 2>&1); rc=$?
@@ -14,7 +15,7 @@ done
 echo "== must-fail"
 for p in seeded/*/patch.diff selftest/mutants/*.diff; do [ -f "$p" ] || continue
   if [[ $p == seeded/* ]]; then name=$(basename $(dirname $p)); else name=$(basename $p .diff); fi
-  id=${name%%-*}; [ -n "$only" ] && [ "$only" != "$id" ] && continue
+  id=${name%%-*}; [ -n "$only" ] && [[ "$only" != *" $id "* ]] && continue
   [ -f checks/$id.json ] || { echo "skip $name (no check for $id yet)"; continue; }
   if [ -f seeded/$name/meta.json ] && grep -q '"detected_by": "NOT DETECTED' seeded/$name/meta.json; then echo "skip $name (recorded as not detected)"; continue; fi
   git -C /repo apply /verif/$p 2>/dev/null || { echo "PATCH-DOES-NOT-APPLY $name"; FAIL=1; continue; }
@@ -24,7 +25,7 @@ for p in seeded/*/patch.diff selftest/mutants/*.diff; do [ -f "$p" ] || continue
 done
 echo "== benign (must pass)"
 for p in selftest/benign/*.diff; do [ -f "$p" ] || continue
-  name=$(basename $p .diff); id=${name%%-*}; [ -n "$only" ] && [ "$only" != "$id" ] && continue
+  name=$(basename $p .diff); id=${name%%-*}; [ -n "$only" ] && [[ "$only" != *" $id "* ]] && continue
   git -C /repo apply /verif/$p 2>/dev/null || { echo "PATCH-DOES-NOT-APPLY $name"; FAIL=1; continue; }
   out=$(bin/check $id 2>&1); rc=$?
   git -C /repo checkout -- .
@@ -32,7 +33,7 @@ for p in selftest/benign/*.diff; do [ -f "$p" ] || continue
 done
 echo "== refactorings beyond what the anchoring follows (must answer UNDECIDED: exit 2, no VIOLATION line)"
 for p in selftest/undecided/*.diff; do [ -f "$p" ] || continue
-  name=$(basename $p .diff); id=${name%%-*}; [ -n "$only" ] && [ "$only" != "$id" ] && continue
+  name=$(basename $p .diff); id=${name%%-*}; [ -n "$only" ] && [[ "$only" != *" $id "* ]] && continue
   git -C /repo apply /verif/$p 2>/dev/null || { echo "PATCH-DOES-NOT-APPLY $name"; FAIL=1; continue; }
   out=$(bin/check $id 2>&1); rc=$?
   git -C /repo checkout -- .
